@@ -10,6 +10,14 @@ CONSTANTS Anchors,     \* set of base day numbers (concretization anchors)
           MaxSetW      \* bound on changes of the week-end setting (the `weekends` file rewritten)
 Tods == {0, 1, 43200, 86399}
 NoFile == [b |-> -1, e |-> -1]
+(* the process could not open its file and has given up for good (file.err is  *)
+(* sticky): a file of TODAY'S name exists with ANOTHER end recorded in it --  *)
+(* the name carries only the begin date, so the week-end setting changed on a *)
+(* day for which a file already exists.  openMapped refuses it ("header       *)
+(* mismatch"): joining it would put increments into a file whose recorded end *)
+(* is not the one this process rotates at, and counter and uploader would     *)
+(* disagree about the week.                                                   *)
+Failed == [b |-> -2, e |-> -2]
 
 VARIABLES base, w, day, tod,
           cur,        \* span the process writes to (NoFile before the first rotate)
@@ -41,20 +49,21 @@ Advance == /\ \E d2 \in day..(base + Horizon), t2 \in Tods :
 
 (* the configured week-end day changes (the file is rewritten); files that  *)
 (* exist keep the end they recorded, files opened later use the new setting *)
-(* (a file's name carries only its begin date: if the setting changed on a   *)
-(* day for which a file already exists, reopening that day's file would find *)
-(* another end recorded in it and fail with a header mismatch -- inherent in  *)
-(* the naming scheme and outside the property, so not modelled)               *)
 SetW == /\ nSetW < MaxSetW
-        /\ \A f \in DOMAIN disk : f.b # day
         /\ \E w2 \in 0..6 : w2 # w /\ w' = w2
         /\ nSetW' = nSetW + 1
         /\ last' = "setw"
         /\ UNCHANGED <<base, day, tod, cur, disk, reports, nInc, nUp>>
 
-(* rotate1: (re)open the file of the span that contains `now`. *)
-Rotate == /\ cur' = SpanAt(day)
-          /\ disk' = IF SpanAt(day) \in DOMAIN disk THEN disk ELSE Put(disk, SpanAt(day), 0)
+(* rotate1: (re)open the file of the span that contains `now`, computed with *)
+(* the setting configured now; nothing to do if that is the open file; refused *)
+(* for good if today's file exists with another end (see Failed)               *)
+Conflict == \E f \in DOMAIN disk : f.b = day /\ f.e # End(day, w)
+Rotate == /\ cur' = IF cur = Failed THEN Failed
+                    ELSE IF cur = SpanAt(day) THEN cur
+                    ELSE IF Conflict THEN Failed
+                    ELSE SpanAt(day)
+          /\ disk' = IF cur' = Failed \/ cur' \in DOMAIN disk THEN disk ELSE Put(disk, cur', 0)
           /\ last' = "rotate"
           /\ UNCHANGED <<base, w, day, tod, reports, nInc, nUp, nSetW>>
 
@@ -91,11 +100,11 @@ Next == Advance \/ SetW \/ Rotate \/ Inc \/ Upload
 Spec == Init /\ [][Next]_vars
 
 (* ---- the property ---- *)
-SpansOK == \A f \in (DOMAIN disk) \cup ({cur} \ {NoFile}) :
+SpansOK == \A f \in (DOMAIN disk) \cup ({cur} \ {NoFile, Failed}) :
               /\ f.e - f.b \in 1..7
               /\ (nSetW = 0 => Wd(f.e) = w)
 (* a newly opened file begins today and ends on the first later day that falls on the weekday configured NOW *)
-RotateOpensToday == [][last' = "rotate" => (cur'.b = day /\ cur'.e > day /\ cur'.e - day \in 1..7 /\ Wd(cur'.e) = w
+RotateOpensToday == [][last' = "rotate" => cur' = Failed \/ (cur'.b = day /\ cur'.e > day /\ cur'.e - day \in 1..7 /\ Wd(cur'.e) = w
                                             /\ \A k \in 1..6 : day + k < cur'.e => Wd(day + k) # w)]_vars
 (* increments land only in the file opened by the latest rotate *)
 IncOnlyInCurrent == [][last' = "inc" =>
